@@ -50,7 +50,8 @@ Exprs == << Kids,                                                        \* 1  /
             Filter(Bin("union", VVar, WVar), <<Call(<<"l","a","s","t">>, <<>>)>>, <<Step("parent", T_node)>>),  \* 9
             Abs(<<DoS, StepP("child", T_any, <<Bin("eq", Rel(<<Self>>), VVar)>>)>>),   \* 10 //*[. = $v]
             Filter(VVar, <<>>, <<Step("self", T_name("", <<"c">>))>>),   \* 11 $v/self::c  (a node test applied to the held set itself)
-            Filter(VVar, <<>>, <<DoS, Step("child", T_node)>>) >>           \* 12 $v//node()  (descendant-or-self starts from the held set itself)
+            Filter(VVar, <<>>, <<DoS, Step("child", T_node)>>),             \* 12 $v//node()  (descendant-or-self starts from the held set itself)
+            Abs(<<Step("descendant", T_node)>>) >>                          \* 13 /descendant::node()  (the result is one unfiltered axis walk)
 UsesV(i) == i \in {3, 4, 5, 6, 7, 8, 9, 10, 11, 12}
 UsesW(i) == i \in {4, 9}
 
